@@ -18,6 +18,8 @@
 // MaxDecodeBytes field (no such field in the literal: LDefault, since 0 selects the package default).
 // saveDecodedStreamContent(nil, ...) is listed as LDefault (decodeLimit(nil) = package default);
 // saveDecodedStreamContentWithLimit(..., e) -> kind of e (decodeLimit(nil) is LDefault).
+// Every site also carries its decode MODE: MFull (whole stream), MPartial (DecodeLength /
+// DecodeLengthWithLimit with a maxLen other than the literal -1), MNone (NewFilter, struct literals).
 // The two defaulting wrappers themselves (StreamDict.Decode / StreamDict.DecodeLength) are skipped.
 package main
 
@@ -35,7 +37,7 @@ import (
 	"strings"
 )
 
-type site struct{ file, fn, call, kind string }
+type site struct{ file, fn, call, kind, mode string }
 
 func main() {
 	repo := flag.String("repo", "/repo", "pdfcpu tree")
@@ -100,7 +102,7 @@ func main() {
 							fail("%s: %s: cannot classify ObjectStreamDict.MaxDecodeBytes = %q", rel, fname, e)
 						}
 					}
-					ctors = append(ctors, site{rel, fname, "ObjectStreamDict{}", kind})
+					ctors = append(ctors, site{rel, fname, "ObjectStreamDict{}", kind, "MNone"})
 					return true
 				}
 				ce, ok := n.(*ast.CallExpr)
@@ -115,27 +117,38 @@ func main() {
 					name = fx.Name
 				}
 				var limitExpr ast.Expr
+				mode := "MFull"
+				// partial decode: DecodeLength(x) / DecodeLengthWithLimit(x, e) with x other than the literal -1
+				partial := func(x ast.Expr) string {
+					if src(fset, x) == "-1" {
+						return "MFull"
+					}
+					return "MPartial"
+				}
 				if name == "saveDecodedStreamContent" && len(ce.Args) == 5 {
 					// read.go saveDecodedStreamContent decodes with decodeLimit(ctx); decodeLimit(nil) is the
 					// package default, so a caller passing a nil context does not pass the configured limit
 					if id, ok := ce.Args[0].(*ast.Ident); ok && id.Name == "nil" {
-						sites = append(sites, site{rel, fname, "saveDecodedStreamContent(nil)", "LDefault"})
+						sites = append(sites, site{rel, fname, "saveDecodedStreamContent(nil)", "LDefault", "MFull"})
 					}
 					return true
 				}
 				switch {
 				case isSel && name == "Decode" && len(ce.Args) == 0:
 				case isSel && name == "DecodeLength" && len(ce.Args) == 1:
+					mode = partial(ce.Args[0])
 				case isSel && name == "DecodeWithLimit" && len(ce.Args) == 1:
 					limitExpr = ce.Args[0]
 				case isSel && name == "DecodeLengthWithLimit" && len(ce.Args) == 2:
 					limitExpr = ce.Args[1]
+					mode = partial(ce.Args[0])
 				case !isSel && name == "saveDecodedStreamContentWithLimit" && len(ce.Args) == 6:
 					limitExpr = ce.Args[5] // read.go: decodes with sd.DecodeWithLimit(limit)
 				case name == "NewFilter" && (len(ce.Args) == 2 || len(ce.Args) == 3) && (isSel && src(fset, ce.Fun) == "filter.NewFilter" || !isSel && f.Name.Name == "filter"):
 					if len(ce.Args) == 3 {
 						limitExpr = ce.Args[2]
 					}
+					mode = "MNone"
 				default:
 					if name == "DecodeWithLimit" || name == "DecodeLengthWithLimit" || name == "saveDecodedStreamContentWithLimit" {
 						fail("%s: %s: unexpected arity of %s", rel, fname, name)
@@ -159,7 +172,7 @@ func main() {
 						fail("%s: %s: cannot classify limit expression %q", rel, fname, e)
 					}
 				}
-				sites = append(sites, site{rel, fname, name, kind})
+				sites = append(sites, site{rel, fname, name, kind, mode})
 				return true
 			})
 		}
@@ -196,7 +209,7 @@ func main() {
 		if i == len(sites)-1 {
 			sep = ""
 		}
-		fmt.Fprintf(&w, "  mksite %q %q %q %s%s\n", s.file, s.fn, s.call, s.kind, sep)
+		fmt.Fprintf(&w, "  mksite %q %q %q %s %s%s\n", s.file, s.fn, s.call, s.kind, s.mode, sep)
 	}
 	w.WriteString("].\n\nDefinition osd_constructions : list site := [\n")
 	for i, s := range ctors {
@@ -204,7 +217,7 @@ func main() {
 		if i == len(ctors)-1 {
 			sep = ""
 		}
-		fmt.Fprintf(&w, "  mksite %q %q %q %s%s\n", s.file, s.fn, s.call, s.kind, sep)
+		fmt.Fprintf(&w, "  mksite %q %q %q %s %s%s\n", s.file, s.fn, s.call, s.kind, s.mode, sep)
 	}
 	w.WriteString("].\n")
 	if *out == "" {
